@@ -164,11 +164,11 @@ int ezc3d::ParametersNS::GroupNS::Parameter::read(ezc3d::c3d &file, int nbCharIn
         throw std::ios_base::failure ("Parameter type unrecognized");
 
     // number of dimension of parameter (0 for scalar)
-    int nDimensions(file.readInt(1*ezc3d::DATA_TYPE::BYTE));
+    size_t nDimensions(file.readUint(1*ezc3d::DATA_TYPE::BYTE));
     if (nDimensions == 0) // In the special case of a scalar
         _dimension.push_back(1);
     else // otherwise it's a matrix
-        for (int i=0; i<nDimensions; ++i)
+        for (size_t i=0; i<nDimensions; ++i)
             _dimension.push_back (file.readUint(1*ezc3d::DATA_TYPE::BYTE));    // Read the dimension size of the matrix
 
     // Read the data for the parameters
